@@ -15,7 +15,10 @@
 //!      `cmdbasic t=<secs>`                                 `AdminCommHandler::handle_open_basic_commissioning_window`
 //!      `pbkdf i=<k> [req=good|malformed|pid] [sai=<ms>] [sii=<ms>] [sat=<ms>] [dup=1]`   first message of initiator k (new exchange)
 //!      `pake1 i=<k> pw=<n> [pt=valid|zero|offcurve|short|inf1|comp|long|comp65|hybrid|xgep|pfield|gen|m|n|neg] [dup=1]`
-//!      `pake3 i=<k> [ca=good|flip|zero|short|replay:<j>] [dup=1]`   (replay: the cA initiator j computed)
+//!      `pake3 i=<k> [ca=good|flip|zero|short|replay:<j>] [dup=1] [noack=1]`   (replay: the cA initiator j computed;
+//!                                                          noack: the initiator never acknowledges the device's answer and the
+//!                                                          network loses every stand-alone ACK of the controller until the end of
+//!                                                          the next `tick` - the responder's final `send_with` fails with `Err`)
 //!      `abort i=<k>`                                       status report InvalidParameter instead of the next message
 //!      `resend i=<k> m=<0|1|2>`                            the identical datagram of k's PBKDFParamRequest / Pake1 / Pake3 once more
 //!      `fill n=<k> pin=<0|1>` | `unfill`                   other sessions in the device's table (with / without an active exchange)
@@ -109,6 +112,8 @@ struct Shared {
     drop_opcode: Cell<Option<u8>>,
     /// the device's next payload-carrying datagram (its answer) is lost (its MRP retransmission gets through)
     rdrop: Cell<bool>,
+    /// every stand-alone ACK of the controller is lost (until the end of the next `tick`)
+    ackdrop: Cell<bool>,
     /// ids of the filler sessions in the device's table
     fillers: RefCell<Vec<u32>>,
 }
@@ -117,6 +122,13 @@ struct Shared {
 struct DupPolicy(Rc<Shared>);
 impl Policy for DupPolicy {
     fn decide(&mut self, from: usize, _to: usize, bytes: &[u8], _seq: u64) -> Verdict {
+        if from == 1 && self.0.ackdrop.get() {
+            if let Some((_, opcode)) = payload_start(bytes) {
+                if opcode == OpCode::MRPStandAloneAck as u8 {
+                    return Verdict::Drop;
+                }
+            }
+        }
         if from == 1 {
             if let Some(want) = self.0.drop_opcode.get() {
                 if let Some((start, opcode)) = payload_start(bytes) {
@@ -492,6 +504,7 @@ async fn run_script<'a, C: Crypto>(
             },
             "tick" => {
                 Timer::after(Duration::from_millis(num(&m, "ms"))).await;
+                sh.ackdrop.set(false);
                 "-".into()
             }
             "poll" => {
@@ -685,9 +698,15 @@ async fn run_script<'a, C: Crypto>(
                             Ok(Some(MessageMeta::new(PROTO_ID_SECURE_CHANNEL, OpCode::PASEPake3 as u8, true)))
                         })
                         .await?;
+                        let noack = m.get("noack").map(|d| d == "1").unwrap_or(false);
+                        if noack {
+                            sh.ackdrop.set(true);
+                        }
                         let s = match reply(ex).await {
                             Ok((opc, payload)) => {
-                                let _ = ex.acknowledge().await;
+                                if !noack {
+                                    let _ = ex.acknowledge().await;
+                                }
                                 describe(opc, &payload)
                             }
                             Err(e) => e,
@@ -822,7 +841,7 @@ fn run_case(out: &mut Out, case: &Case) {
     let m = kv(&case.kind);
     let pw = (num(&m, "pw") as u32).to_le_bytes();
     let comm = BasicCommData { password: Spake2pVerifierPassword::new_from_ref(Spake2pVerifierPasswordRef::new(&pw)), discriminator: 3840 };
-    let sh = Rc::new(Shared { dup_opcode: Cell::new(None), drop_opcode: Cell::new(None), rdrop: Cell::new(false), fillers: RefCell::new(Vec::new()) });
+    let sh = Rc::new(Shared { dup_opcode: Cell::new(None), drop_opcode: Cell::new(None), rdrop: Cell::new(false), ackdrop: Cell::new(false), fillers: RefCell::new(Vec::new()) });
     let net = SimNet::new(2, Box::new(DupPolicy(sh.clone())));
     let device = Matter::new(&TEST_DEV_DET, comm.clone(), &TEST_DEV_ATT, 0);
     let ctrl = Matter::new(&TEST_DEV_DET, comm, &TEST_DEV_ATT, 0);
